@@ -182,16 +182,34 @@ func sanityAssumptions(file string) bool {
 
 var sanityMu sync.Mutex
 var sanityCache = map[string]bool{}
+var sanityNs, writeNs, solveNs int64
+
+func sanitySeconds() float64 {
+	sanityMu.Lock()
+	defer sanityMu.Unlock()
+	fmt.Fprintf(os.Stderr, "timing: writeQuery %.1fs solve %.1fs (worker seconds)\n", float64(writeNs)/1e9, float64(solveNs)/1e9)
+	return float64(sanityNs) / 1e9
+}
 
 // fnSanity: once per function, z3-new must not refute the definitions and
 // axioms of the function's largest query on their own (no path condition, no goal).
+var sanityOnce = map[string]*sync.Once{}
+
 func fnSanity(fn, workDir string, pre *Prelude, obls []*Obligation) bool {
 	sanityMu.Lock()
-	if v, ok := sanityCache[fn]; ok {
-		sanityMu.Unlock()
-		return v
+	once := sanityOnce[fn]
+	if once == nil {
+		once = &sync.Once{}
+		sanityOnce[fn] = once
 	}
 	sanityMu.Unlock()
+	once.Do(func() { fnSanityCompute(fn, workDir, pre, obls) })
+	sanityMu.Lock()
+	defer sanityMu.Unlock()
+	return sanityCache[fn]
+}
+
+func fnSanityCompute(fn, workDir string, pre *Prelude, obls []*Obligation) bool {
 	var big *Obligation
 	for _, o := range obls {
 		if o.Fn == fn && (big == nil || len(o.Query) > len(big.Query)) {
@@ -199,6 +217,12 @@ func fnSanity(fn, workDir string, pre *Prelude, obls []*Obligation) bool {
 		}
 	}
 	ok := true
+	t0 := time.Now()
+	defer func() {
+		sanityMu.Lock()
+		sanityNs += int64(time.Since(t0))
+		sanityMu.Unlock()
+	}()
 	if big != nil {
 		prelude, post := pre.For(big.Query, big.NoLemmas, big.Uses, big.Native)
 		q := big.Query
@@ -213,8 +237,8 @@ func fnSanity(fn, workDir string, pre *Prelude, obls []*Obligation) bool {
 		txt := "(set-logic ALL)\n" + prelude + strings.Join(lines, "\n") + "\n" + post + "(check-sat)\n"
 		f2 := filepath.Join(workDir, "sanity-"+fmt.Sprintf("%x", sha256.Sum256([]byte(fn)))[:12]+".smt2")
 		os.WriteFile(f2, []byte(txt), 0o644)
-		ctx, cancel := context.WithTimeout(context.Background(), 8*time.Second)
-		st, _ := runSolver(ctx, solvers[0], f2, 5)
+		ctx, cancel := context.WithTimeout(context.Background(), 4*time.Second)
+		st, _ := runSolver(ctx, solvers[0], f2, 2)
 		cancel()
 		ok = st != "unsat"
 	}
@@ -228,6 +252,23 @@ func dischargeAll(obls []*Obligation, prelude *Prelude, workDir string, timeoutS
 	os.MkdirAll(workDir, 0o755)
 	var wg sync.WaitGroup
 	sem := make(chan struct{}, workers)
+	// the per-function sanity checks are started up front, off the critical path
+	{
+		seen := map[string]bool{}
+		ssem := make(chan struct{}, 6)
+		for _, o := range obls {
+			if o.Kind == "cover" || seen[o.Fn] {
+				continue
+			}
+			seen[o.Fn] = true
+			fn := o.Fn
+			go func() {
+				ssem <- struct{}{}
+				defer func() { <-ssem }()
+				fnSanity(fn, workDir, prelude, obls)
+			}()
+		}
+	}
 	for _, o := range obls {
 		o := o
 		wg.Add(1)
@@ -238,9 +279,17 @@ func dischargeAll(obls []*Obligation, prelude *Prelude, workDir string, timeoutS
 			if o.Result != "" {
 				return
 			}
+			tw := time.Now()
 			file := writeQuery(workDir, prelude, o)
 			o.File = file
+			sanityMu.Lock()
+			writeNs += int64(time.Since(tw))
+			sanityMu.Unlock()
+			tsv := time.Now()
 			r := solve(file, timeoutS, wantUnsat)
+			sanityMu.Lock()
+			solveNs += int64(time.Since(tsv))
+			sanityMu.Unlock()
 			if r.status == "unsat" && r.backend == solvers[0].name && o.Kind != "cover" {
 				if !fnSanity(o.Fn, workDir, prelude, obls) {
 					// z3-new refutes the assumptions themselves: do not trust it for this query
